@@ -1,4 +1,5 @@
 import MosnVerif.Lemmas.Route
+import MosnVerif.Lemmas.RouteRegex
 /-!
 # C04 — route selection follows the documented precedence, deterministically (property theorems only)
 
@@ -243,6 +244,113 @@ theorem answer_refines (srt : List Wild → List Wild) (hs : IsSorter srt) (cfg 
     (hb : build srt cfg = .ok t) (rx : RxOracle) (req : Req) :
     answer rx t cfg req = Spec.answer rx cfg req :=
   MosnVerif.Model.Route.answer_refines hs hb rx req
+
+
+/-! ## regex matchers: reference semantics (Model/RouteRegex.lean)
+
+Which matcher kinds are anchored, as the code has it: **none**.  The variable matcher `regex`
+(`VariableRouteRuleImpl.Match`), the path `regex` route (`RegexRouteRuleImpl.Match`), every header matcher with
+`regex: true` (`StringMatch.Matches`, HTTP and RPC rules, the lone `service` regex included) call
+`regexp.MatchString`: the pattern may match anywhere in the value; only `^` / `$` written in the pattern anchor it.
+Exact matchers (`value`, header `value` with `regex: false`, `path`) compare the whole string, `prefix` its beginning. -/
+
+open MosnVerif.Model.RouteRegex in
+/-- **literal_regex_is_infix**: a pattern without meta characters (`regexp.QuoteMeta p == p`) is inside the subset and
+matches exactly the values that contain it as a contiguous sub-string — not only the values equal to it. -/
+theorem literal_regex_is_infix (p : Str) (h : isLiteral p = true) :
+    ∃ re, parseRe p = some re ∧ ∀ v, (matchesRe re v = true ↔ p <:+: v) :=
+  ⟨lit p, parseRe_literal p ((isLiteral_iff p).mp h), fun v => matches_lit p v⟩
+
+example : MosnVerif.Model.RouteRegex.isLiteral "/v1/".toList = true := by decide
+/-- storing a meta-free `regex` as the item's exact value changes the answer: "/v1/" matches "/api/v1/users" -/
+example : MosnVerif.Model.RouteRegex.matchString "/v1/".toList "/api/v1/users".toList = some true
+    ∧ "/v1/".toList ≠ "/api/v1/users".toList := by decide
+example : MosnVerif.Model.RouteRegex.matchString "^/v1/".toList "/api/v1/users".toList = some false := by decide
+example : MosnVerif.Model.RouteRegex.matchString "^(GET|POST)$".toList "POST".toList = some true := by decide
+example : MosnVerif.Model.RouteRegex.matchString "/v[0-9]+/".toList "/api/v12/x".toList = some true := by decide
+
+open MosnVerif.Model.RouteRegex in
+/-- under the reference oracle a literal pattern is an infix test, whatever the oracle says elsewhere -/
+theorem literal_regex_unanchored (pats : Nat → Option Str) (rx : RxOracle) (id : Nat) (p : Str)
+    (hp : pats id = some p) (hl : isLiteral p = true) (s : Str) :
+    refRx pats rx id s = true ↔ p <:+: s := by
+  simp only [refRx, hp, Option.bind_some, parseRe_literal p ((isLiteral_iff p).mp hl)]
+  exact matches_lit p s
+
+open MosnVerif.Model.RouteRegex in
+/-- a variable matcher `{name, regex: p}` with a meta-free `p` holds iff the variable's value contains `p`
+(a `value` configured beside it is irrelevant: the regex wins) -/
+theorem literal_variable_matcher (pats : Nat → Option Str) (rx : RxOracle) (req : Req) (name value model p : Str)
+    (id : Nat) (ok : Bool) (hp : pats id = some p) (hl : isLiteral p = true) :
+    Spec.varItemHolds (refRx pats rx) req ⟨name, value, some ⟨id, ok⟩, model⟩ = true ↔ p <:+: (req.var name).getD [] := by
+  simp only [Spec.varItemHolds]
+  exact literal_regex_unanchored pats rx id p hp hl _
+
+open MosnVerif.Model.RouteRegex in
+/-- a header matcher `{name, value: p, regex: true}` with a meta-free `p` holds iff the request carries the header and
+its value contains `p` -/
+theorem literal_header_matcher (pats : Nat → Option Str) (rx : RxOracle) (req : Req) (name p : Str) (id : Nat)
+    (hp : pats id = some p) (hl : isLiteral p = true) :
+    Spec.headerHolds (refRx pats rx) req ⟨name, p, true, ⟨id, true⟩⟩ = true ↔
+      ∃ v, Spec.hdrValue req name = some v ∧ p <:+: v := by
+  simp only [Spec.headerHolds, if_true]
+  cases hv : Spec.hdrValue req name with
+  | none => simp
+  | some v => simp [literal_regex_unanchored pats rx id p hp hl v]
+
+open MosnVerif.Model.RouteRegex in
+/-- **first match with the reference regex semantics**: when the regex oracle (Go's `regexp` in the correspondence
+run) agrees with the reference matcher on the patterns inside the subset, `MatchRoute` / `MatchAllRoutes` return the
+documented answer computed with the reference matcher -/
+theorem answer_refines_reference (srt : List Wild → List Wild) (hs : IsSorter srt) (cfg : Config) (t : Tables)
+    (hb : build srt cfg = .ok t) (pats : Nat → Option Str) (rx : RxOracle)
+    (hrx : ∀ id s, rx id s = refRx pats rx id s) (req : Req) :
+    answer rx t cfg req = Spec.answer (refRx pats rx) cfg req := by
+  have e : refRx pats rx = rx := funext fun id => funext fun s => (hrx id s).symm
+  rw [e]
+  exact answer_refines srt hs cfg t hb rx req
+
+/-- the regenerated **parse decision** of `ParseToVariableMatchItem` equals the closed form `parseVarItem` the rule
+constructor of the model uses: `value` fills `value`, `regex` is compiled (by the matcher's `regexp.Compile` oracle) into
+`regexPattern` — for every pattern, meta-free or not; there is no shortcut that stores a regex as an exact value. -/
+theorem gen_parseVarItem (v : VarCfg) : Gen.Route.parseToVariableMatchItem v = parseVarItem v := by
+  obtain ⟨name, value, regex, model⟩ := v
+  have d1 : (default : VarItem).value = none := rfl
+  have d2 : (default : VarItem).regexPattern = none := rfl
+  unfold Gen.Route.parseToVariableMatchItem parseVarItem
+  cases regex with
+  | none =>
+    by_cases hv : value = [] <;> by_cases hm : model = [] <;>
+      by_cases h1 : lower model = Gen.Route.modelAnd <;> by_cases h2 : lower model = Gen.Route.modelOr <;>
+      simp [VarCfg.regexText, hv, hm, d1, d2, h1, h2]
+  | some r =>
+    obtain ⟨id, ok⟩ := r
+    cases ok <;> by_cases hv : value = [] <;> by_cases hm : model = [] <;>
+      by_cases h1 : lower model = Gen.Route.modelAnd <;> by_cases h2 : lower model = Gen.Route.modelOr <;>
+      simp [VarCfg.regexText, VarCfg.compile, hv, hm, d1, h1, h2]
+
+/-- a configured `regex` always ends up in the item's `regexPattern` (and a configured `value` beside it in `value`) -/
+theorem regex_is_compiled_not_stored (v : VarCfg) (r : Rx) (item : VarItem) (hr : v.regex = some r)
+    (h : Gen.Route.parseToVariableMatchItem v = some item) :
+    item.regexPattern = some r.id ∧ item.value = (if v.value = [] then none else some v.value) := by
+  rw [gen_parseVarItem] at h
+  obtain ⟨name, value, regex, model⟩ := v
+  simp only at hr
+  subst hr
+  unfold parseVarItem at h
+  simp only at h
+  split at h
+  · rename_i p m hp hm
+    cases hok : r.ok with
+    | false => simp [hok] at hp
+    | true =>
+      simp [hok] at hp
+      cases h
+      exact ⟨by rw [← hp], rfl⟩
+  · cases h
+
+example : Gen.Route.parseToVariableMatchItem ⟨"x-mosn-path".toList, [], some ⟨1, true⟩, []⟩
+    = some ⟨"x-mosn-path".toList, none, some 1, Gen.Route.modelAnd⟩ := by decide
 
 /-- the regenerated lookup is the four-step cascade followed by the default (ties `Gen.Route` to the proofs). -/
 theorem gen_lookup_is_cascade (t : Tables) (host port : Str) :
